@@ -32,6 +32,31 @@ fn fixed<const N: usize>(out: &mut Out, rng: &mut Rng) {
             let kind = if count < N { "short" } else { "long" };
             out.hit(&format!("serde.bincode.fixed-length.accepts-{}-bytes", kind), format!("StackByteArray<{}> from {} bytes", N, count), json!({"op":"serde.bincode_decode.StackByteArray","N":N,"bytes":hx(&enc)}));
         }
+        // the same byte string on the routes that hand the visitor a copied buffer instead of a borrowed one:
+        // bincode from a reader, serde_json from a reader, a JSON string with an escape sequence
+        {
+            let text: Vec<u8> = elems.iter().map(|x| b'a' + (x % 26)).collect();
+            let plain = format!("\"{}\"", String::from_utf8(text.clone()).unwrap());
+            let escaped = if count > 0 { format!("\"\\u00{:02x}{}\"", text[0], String::from_utf8(text[1..].to_vec()).unwrap()) } else { "\"\"".to_string() };
+            let routes: Vec<(&str, Outcome<Vec<u8>>, Vec<u8>)> = vec![
+                ("bincode.reader", guard(|| bincode::deserialize_from::<_, StackByteArray<N>>(&enc[..])).map(|a| a.as_slice().to_vec()), elems.clone()),
+                ("json.string", guard(|| serde_json::from_str::<StackByteArray<N>>(&plain)).map(|a| a.as_slice().to_vec()), text.clone()),
+                ("json.string-reader", guard(|| serde_json::from_reader::<_, StackByteArray<N>>(plain.as_bytes())).map(|a| a.as_slice().to_vec()), text.clone()),
+                ("json.string-escaped", guard(|| serde_json::from_str::<StackByteArray<N>>(&escaped)).map(|a| a.as_slice().to_vec()), text.clone()),
+            ];
+            for (route, r, want) in routes {
+                out.search_evaluations += 1;
+                let res = match &r { Outcome::Ok(a) => Outcome::Ok(vec![b(a)]), Outcome::Err => Outcome::Err, Outcome::Panic => Outcome::Panic };
+                out.case("serde.visit_bytes", &[i(N), b(&want)], &res, true);
+                match (&r, count == N) {
+                    (Outcome::Ok(a), true) if *a == want => {}
+                    (Outcome::Err, false) => {}
+                    (Outcome::Ok(_), false) => out.hit(&format!("serde.{}.fixed-length.accepts-{}-bytes", route, if count < N { "short" } else { "long" }), format!("StackByteArray<{}> from {} bytes", N, count), json!({"op":"serde.decode.StackByteArray","route":route,"N":N,"bytes":hx(&want)})),
+                    (Outcome::Panic, _) => out.hit(&format!("serde.{}.fixed-length.decode-panics", route), format!("N {} count {}", N, count), json!({"route":route,"N":N,"count":count})),
+                    _ => out.hit(&format!("serde.{}.fixed-length.rejects-exact", route), format!("N {}", N), json!({"route":route,"N":N})),
+                }
+            }
+        }
         // TryFrom<&[u8]>
         let r = guard(|| StackByteArray::<N>::try_from(&elems[..]));
         out.search_evaluations += 1;
@@ -147,11 +172,33 @@ pub fn run(out: &mut Out, tier: &str, seed: u64) {
         both_formats(out, "SigningKeyPair", &skp, 0);
         let ckp = dryoc::kx::KeyPair::from_secret_key(StackByteArray::<32>::from(&ska));
         let skp2 = dryoc::kx::KeyPair::from_secret_key(StackByteArray::<32>::from(&skb));
-        if let Ok(sess) = dryoc::kx::Session::<StackByteArray<32>>::new_client(&ckp, &skp2.public_key) { both_formats(out, "Session", &sess, 0); }
+        if let Ok(sess) = dryoc::kx::Session::<StackByteArray<32>>::new_client(&ckp, &skp2.public_key) {
+            both_formats(out, "Session", &sess, 0);
+            // into_parts gives (rx, tx) as documented: = the accessors, = the serialised fields, = libsodium
+            out.search_evaluations += 3;
+            let (rxa, txa) = (sess.rx_as_slice().to_vec(), sess.tx_as_slice().to_vec());
+            let jv = serde_json::to_value(&sess).unwrap();
+            let field = |n: &str| -> Vec<u8> { jv.get(n).and_then(|x| x.as_array()).map(|a| a.iter().map(|y| y.as_u64().unwrap_or(999) as u8).collect()).unwrap_or_default() };
+            let (rx, tx) = sess.into_parts();
+            let rp = json!({"op":"kx.session.into_parts","client_sk":hx(&ska),"server_pk":hx(skp2.public_key.as_slice())});
+            if rx.as_slice() != &rxa[..] || tx.as_slice() != &txa[..] { out.hit("parts.session.into_parts-differs-from-accessors", "into_parts() is not (rx, tx)".into(), rp.clone()); }
+            if field("rx_key") != rxa || field("tx_key") != txa { out.hit("parts.session.serialised-fields-differ", "rx_key / tx_key fields".into(), rp.clone()); }
+            if let Some((lrx, ltx)) = sodium::kx_client(ckp.public_key.as_array(), &ska, skp2.public_key.as_array()) {
+                if rx.as_slice() != &lrx[..] || tx.as_slice() != &ltx[..] { out.hit("parts.session.into_parts-differs-from-libsodium", "client (rx, tx)".into(), rp.clone()); }
+            }
+        }
         let kdf = dryoc::kdf::StackKdf::from_parts(StackByteArray::<32>::from(&k), StackByteArray::<8>::from(&rng.arr::<8>()));
+        { // into_parts / from_parts keep the order (key, context)
+            out.search_evaluations += 1;
+            let (kk, cc) = kdf.clone().into_parts();
+            if kk.as_slice() != &k[..] || !same(&dryoc::kdf::StackKdf::from_parts(kk, cc), &kdf) { out.hit("parts.kdf.from_parts-differs", "kdf".into(), json!({})); }
+        }
         if let Some((a, _)) = both_formats(out, "Kdf", &kdf, 0) { if a.derive_subkey_to_vec(7).ok() != kdf.derive_subkey_to_vec(7).ok() { out.hit("serde.roundtrip-changes-derivation.Kdf", "kdf".into(), json!({})); } }
         let cfg = dryoc::pwhash::Config::interactive().with_opslimit(1).with_memlimit(8192).with_salt_length(19).with_hash_length(41);
         if let Ok(ph) = dryoc::pwhash::VecPwHash::hash_with_salt(&b"pw".to_vec(), rng.bytes(19), cfg) {
+            { out.search_evaluations += 1;
+              let (hh, ss, cc) = ph.clone().into_parts();
+              if hh.len() != 41 || ss.len() != 19 || !same(&dryoc::pwhash::VecPwHash::from_parts(hh, ss, cc), &ph) { out.hit("parts.pwhash.from_parts-differs", "pwhash".into(), json!({})); } }
             if let Some((a, _)) = both_formats(out, "PwHash", &ph, 0) { if a.verify(&b"pw".to_vec()).is_err() { out.hit("serde.roundtrip-no-longer-verifies.PwHash", "pwhash".into(), json!({})); } }
         }
     }
